@@ -280,6 +280,8 @@ fn check_faulty(base: &Base, faults: &[Fault]) -> (Option<Viol>, bool) {
                 let wrapped = [
                     ("index-section", format!("{{\"version\":3,\"sections\":[{{\"offset\":{{\"line\":0,\"column\":0}},\"map\":{inner}}}]}}")),
                     ("hermes", format!("{},\"x_facebook_sources\":[]}}", &inner[..inner.len() - 1])),
+                    // a bit field for the first line only, as this crate's own encoder writes it
+                    ("map-with-rangeMappings", format!("{},\"rangeMappings\":\"A\"}}", &inner[..inner.len() - 1])),
                 ];
                 for (how, w) in wrapped {
                     match guarded(|| decode_slice(w.as_bytes())) {
@@ -401,7 +403,7 @@ pub fn run(run: &mut Run) -> Finish {
 
     Finish {
         level: "fault_enumeration",
-        rule: "E1 fault enumeration on the real decoder (every singly faulted document also wrapped as the only section of an index map and as a Hermes map: rejected there too). Bases: every well-formed document with <= 2 lines x <= 3 (thorough 4) segments of 1/4/5 fields for all (sources, names) array sizes in {0,1,2}^2 (each base must decode and all its references resolve). Faults, each at every site where it applies: arity 2/3/6/7; source and name running index set to len, len+1, -1, -len-1, 2^32+valid, -2^32+valid, 2^33+valid, 2^62+valid, +-2^63+valid (13 digits, the longest legal value) (other segments keep their absolute values); continuation bit on the segment's last digit; a segment turned into a 4-/5-field one although the sources / names array is empty; a field re-encoded with 14 and 15 digits; every non-alphabet ASCII byte except , ; and fifteen multi-byte characters (incl. code points whose low byte is a base64 digit) inserted at every offset. Then every ordered pair of structural faults at different sites and structural x foreign pairs on the two-segment bases. Oracle: decode_slice returns Err. Distinct by construction; every faulty document is non-trivial; class = fault type(s).".into(),
+        rule: "E1 fault enumeration on the real decoder (every singly faulted document also wrapped as the only section of an index map, as a Hermes map and with a one-line rangeMappings key: rejected there too). Bases: every well-formed document with <= 2 lines x <= 3 (thorough 4) segments of 1/4/5 fields for all (sources, names) array sizes in {0,1,2}^2 (each base must decode and all its references resolve). Faults, each at every site where it applies: arity 2/3/6/7; source and name running index set to len, len+1, -1, -len-1, 2^32+valid, -2^32+valid, 2^33+valid, 2^62+valid, +-2^63+valid (13 digits, the longest legal value) (other segments keep their absolute values); continuation bit on the segment's last digit; a segment turned into a 4-/5-field one although the sources / names array is empty; a field re-encoded with 14 and 15 digits; every non-alphabet ASCII byte except , ; and fifteen multi-byte characters (incl. code points whose low byte is a base64 digit) inserted at every offset. Then every ordered pair of structural faults at different sites and structural x foreign pairs on the two-segment bases. Oracle: decode_slice returns Err. Distinct by construction; every faulty document is non-trivial; class = fault type(s).".into(),
         assumptions: vec!["JSON escaping of inserted characters is done by serde_json, so the decoder sees the raw character in the mappings string".into()],
         coverage_extra: json!({"bases": nb, "two_segment_bases": n2, "foreign_characters": fc.len()}),
     }
